@@ -9,7 +9,7 @@ from dataclasses import dataclass, field
 from enum import Enum
 from typing import TYPE_CHECKING, Any, Callable, ClassVar, Optional, Type, Union
 
-from pydantic import BaseModel, Extra
+from pydantic import BaseModel, Extra, root_validator
 from pydantic.errors import DictError
 
 from ._symbol_table import SymbolTable
@@ -309,6 +309,15 @@ class OpenJDModel(BaseModel):
     # This metadata instructs the recursive algorithm as to what special
     # treatment the model needs during translation from Template to Job.
     _job_creation_metadata: ClassVar[JobCreationMetadata] = JobCreationMetadata()
+
+    @root_validator(pre=True)
+    def _reject_unordered_collections(cls, values: dict[str, Any]) -> dict[str, Any]:
+        # pydantic turns a set into a list where a list of values is expected (a YAML document can
+        # hold one: '!!set {a, b}'); the order of the resulting list is arbitrary.
+        for key, value in values.items():
+            if isinstance(value, (set, frozenset)):
+                raise ValueError(f"{key}: a set has no order and cannot be used as a list of values.")
+        return values
 
     @classmethod
     def validate(cls, value: Any) -> Any:
